@@ -73,7 +73,7 @@ def configs(tier):
             for full in (False, True):
                 c = dict(family='sim', entry=entry, graph='P3', I0=[0, 1], R0=[1, 2], full=full, ic_style=style, r_style='list', weights='none',
                          wstub='abstract', tags=['sim', 'P3', style, 'overlap', 'full' if full else 'plain'])
-                sim_bounds(entry, c, tier)
+                sim_bounds(entry, c, 'quick')        # same depth in both tiers (the frame condition does not need more events)
                 c.pop('zero_duration', None)
                 out.append(c)
     for zero in (None, 'tau', 'gamma'):
